@@ -97,10 +97,13 @@ fn seeded_case(r: &mut Prng) -> Case {
             let k = *r.pick(&DKINDS);
             let name = if k.named() { r.pick(&NAMES).to_string() } else { String::new() };
             let id = if r.chance(1, 6) { REENTRANT_DESC + next_id } else { next_id };
-            c.pre.push(Op::SetDesc { kind: k, name, id });
+            let op = Op::SetDesc { kind: k, name, id };
+            // one registration in six is made by another (spawned and joined) thread
+            c.pre.push(if r.chance(1, 6) { Op::OnThread { ops: vec![op] } } else { op });
             next_id += 1;
         } else {
-            c.pre.push(Op::Describe { prog: r.pick(&progs).clone() });
+            let op = Op::Describe { prog: r.pick(&progs).clone() };
+            c.pre.push(if r.chance(1, 8) { Op::OnThread { ops: vec![op] } } else { op });
         }
     }
     if r.chance(1, 3) {
@@ -151,7 +154,7 @@ impl Prop for C18 {
                 "the reference describe() walks the harness's own tree; literal rendering is expr()'s (numbers as written, strings in double quotes)",
             ],
             fault_kinds: &["fresh_process", "register_before_first_use", "reenter_describe", "preempt_in_call"],
-            probes: &["single_registrations_run", "binary_descriptor_used", "lookalike_name_other_kind", "re_registration", "concurrent_registrations", "same_symbol_prefix_and_postfix"],
+            probes: &["single_registrations_run", "binary_descriptor_used", "lookalike_name_other_kind", "re_registration", "concurrent_registrations", "same_symbol_prefix_and_postfix", "operation_on_another_thread"],
         }
     }
 
@@ -208,7 +211,14 @@ impl Prop for C18 {
         }
         let mut seen = std::collections::BTreeSet::new();
         let mut nontrivial = false;
-        for op in &case.pre {
+        let flat: Vec<&Op> = case.pre.iter().flat_map(|o| match o {
+            Op::OnThread { ops } => ops.iter().collect::<Vec<_>>(),
+            o => vec![o],
+        }).collect();
+        if case.pre.iter().any(|o| matches!(o, Op::OnThread { .. })) {
+            rt.probe("operation_on_another_thread");
+        }
+        for op in flat {
             match op {
                 Op::SetDesc { kind, name, .. } => {
                     if !seen.insert((*kind, name.clone())) {
